@@ -5,7 +5,8 @@ Obs == IF IOEnv.OBS = "" THEN <<>> ELSE ndJsonDeserialize(IOEnv.OBS)
 RenderFaults == {"undefined-var", "undefined-field", "math-on-string", "divide-by-zero", "filter-receiver", "filter-missing-arg", "iterate-scalar",
                  "compare", "bad-subscript", "throw", "negate-string", "slice-step-zero", "component-missing-arg", "unknown-path-in-set", "across-newline", "spread-non-map", "in-scalar"}
 SyntaxFaults == {"dangling-operator", "empty-if", "stray-endfor", "unterminated-string", "unknown-tag", "double-dot", "unclosed-expression", "unclosed-tag",
-                 "missing-endif", "bad-filter-call", "assign-keyword", "unclosed-comment"}
+                 "missing-endif", "bad-filter-call", "assign-keyword", "unclosed-comment",
+                 "unclosed-tag-nl", "unclosed-expression-nl", "missing-endif-nl", "unclosed-comment-nl"}
 Hosts == {"entry", "included", "parent-block", "child-block-with-super", "parent-block-via-super", "component", "component-via-include",
           "included-in-filter-section", "included-in-set-block", "included-in-component-call-body", "included-twice-nested", "component-in-capture", "included-in-loop"}
 Prefixes == {"none", "ascii", "two-byte", "three-byte", "four-byte", "line2", "line3-multibyte"}
